@@ -180,7 +180,17 @@ def rule_c(repo, chk):
         w = gate(g, c, lambda e, pol: pol and "== '('" in norm(e))
         chk.ob('C11.c', w is None, c, 'only after a "(" was matched', w or '')
     ci = repo.find('jedi.api.helpers', 'CallDetails.calculate_index')
-    guards = [n.test for n in own_nodes(ci) if isinstance(n, ast.If) and 'key_start is not None' in norm(n.test)]
+    guards = []
+    for n in own_nodes(ci):
+        if isinstance(n, ast.If) and 'key_start is not None' in norm(n.test):
+            t = n.test
+            neg = False
+            while isinstance(t, ast.UnaryOp) and isinstance(t.op, ast.Not):     # guard-clause form: `if not (G): continue`
+                t, neg = t.operand, not neg
+            # with an odd number of `not` the guarded work is what FOLLOWS the if (the branch must leave: continue/return/break)
+            if neg and not (n.body and isinstance(n.body[-1], (ast.Continue, ast.Return, ast.Break, ast.Raise))):
+                t = n.test
+            guards.append(t)
     chk.ob('C11.c', len(guards) == 1, ci, 'one keyword-matching guard in calculate_index')
     for gexp in guards:
         good = True
